@@ -176,6 +176,63 @@ func runC02(c *Ctx) {
 				okElem = true
 			}
 		}
+		// callback-driven loop: the kept value of the callback, with its parameter read as the current element of the list
+		for _, fm := range filterMapLoops(fn) {
+			kept, _, okFlags := fmKeeps(fm.body)
+			if !okFlags {
+				continue
+			}
+			s0 := newSym(L, map[string]bool{})
+			s0.maxD = 0
+			var elemTerms []string
+			for _, lt := range s0.eval(fm.list) {
+				elemTerms = append(elemTerms, "index("+lt+")")
+			}
+			all := len(kept) > 0
+			for _, r := range kept {
+				s := newSym(L, map[string]bool{})
+				s.maxD = 0
+				s.binds[fm.body.Params[0]] = elemTerms
+				s.stack[fn] = true
+				t := strings.Join(s.eval(r.Results[0]), "|")
+				seen = append(seen, t)
+				if t != ls.elemTerm {
+					all = false
+				}
+			}
+			// and the list the helper builds is what fn returns
+			for _, r := range returnsOf(fn) {
+				if len(r.Results) != 1 || resolve(r.Results[0]) != ssa.Value(fm.call) {
+					all = false
+				}
+			}
+			if all {
+				okElem = true
+			}
+		}
+		// element i, not some other element: every read of the list in fn (and in its callback bodies) uses the running index
+		// of a range loop
+		scan := []*ssa.Function{fn}
+		for _, fm := range filterMapLoops(fn) {
+			scan = append(scan, fm.body)
+		}
+		for _, g := range scan {
+			for _, b := range g.Blocks {
+				for _, in := range b.Instrs {
+					ia, ok := in.(*ssa.IndexAddr)
+					if !ok {
+						continue
+					}
+					ld, ok := ia.X.(*ssa.UnOp)
+					if !ok || ld.Op != token.MUL {
+						continue
+					}
+					if fa, ok := ld.X.(*ssa.FieldAddr); ok && fieldKey(fa) == ls.list {
+						c.check(isRangeIndex(ia.Index), "C02.2", fnName(fn)+":element-index", L.pos(ia.Pos()), fnName(fn)+": the list is read at the running index of its range loop only", "index is "+describe(ia.Index))
+					}
+				}
+			}
+		}
 		c.check(okElem, "C02.2", fnName(fn)+":element", L.pos(fn.Pos()), fnName(fn)+": appends the allocated name of element i of "+ls.list+" in range order", strings.Join(seen, " ; "))
 		for _, cs := range callsIn(fn) {
 			if strings.HasPrefix(cs.callee, "sort.") || strings.HasPrefix(cs.callee, "slices.") {
